@@ -76,9 +76,9 @@ Theorem C06_render_total_ranked :
 Proof. exact render_total_ranked. Qed.
 Print Assumptions C06_render_total_ranked.
 
-(* a call-free tree needs its own height, under any registry and in any state *)
+(* a call-free tree needs its own tree_height, under any registry and in any state *)
 Theorem C06_walk_fuel_callfree :
-  forall cf fuel n st, call_free n = true -> (height n <= fuel)%nat -> nf (fst (walk cf fuel n st)).
+  forall cf fuel n st, call_free n = true -> (tree_height n <= fuel)%nat -> nf (fst (walk cf fuel n st)).
 Proof. intros cf fuel n st Hc Hf. apply fuel_ok_nf. apply walk_fuel_callfree; assumption. Qed.
 Print Assumptions C06_walk_fuel_callfree.
 
